@@ -36,7 +36,8 @@ CHUNK = 8
 
 WEIGHTS = dict(e1.DEFAULT_WEIGHTS)
 WEIGHTS.update({"svd": 0, "tensordot": 7, "ncon": 3, "fuse": 4, "fuse_pair": 2.5, "unfuse": 2.5, "transpose": 4, "add": 3, "trace": 3,
-                "factor_recombine": 2, "eigh_gram": 1, "diag": 1.5, "observe": 0, "unroll_net": 1.2, "norm": 1, "copy": 0.5})
+                "factor_recombine": 2, "eigh_gram": 1, "diag": 1.5, "observe": 0, "unroll_net": 1.2, "norm": 1, "copy": 0.5,
+                "drop_history": 0})     # drop_leg_history acts on the hard-fusion record only: its result legitimately depends on the fusion mode
 
 
 def budget(tier):
